@@ -2,3 +2,19 @@ chk("C13", "model_checking",
     "Closure over (reader position, frames delivered) x every visible byte length for each trajectory of a small alphabet: all cut sequences of any length at byte granularity are covered for the text readers, on the real reader functions.",
     "Trusted: the harness-side writers emit the formats CP2K/LAMMPS emit; a frame whose values are complete but whose final newline is not yet visible is don't-care.",
     "explicit-state closure on the implementation", "DESIGN.md 4/C13")
+chk("C09", "model_checking",
+    "All executions of the real shoot / wire_fencing / retis_swap_zero on the lattice from every old path up to a length bound (every shooting index, every cell of every uniform draw, every walk step sequence), each judged for membership, time order, weight, shooting point and an untouched old path; the exact kernel is compared with the reference kernel of 'accept iff u <= n_old/n_new' as an equality of rationals, plus explicit equality probes.",
+    "Trusted: the lattice walk stands for MD (reversible birth-death chain, identity velocity kick); int(c/u) branches above maxlength are merged; wf 'contains the shooting point' is not checked.",
+    "stateless exhaustive exploration with exact probabilities", "DESIGN.md 4/C09")
+chk("C10", "exploration",
+    "Exhaustive enumeration of all order-parameter sequences up to length 6 (quick) / 7 (thorough) over a 9-symbol alphabet placed at and between the interfaces, for four interface layouts, against a reference sub-path decomposition; the selection law enumerates every cell of the real code's uniform draw.",
+    "Trusted: reference decomposition written from the property text; compute_weight compared on complete paths only.",
+    "exhaustive input enumeration + exact draw-cell enumeration", "DESIGN.md 4/C10")
+chk("C11", "model_checking",
+    "All ([0-],[0+]) lattice path pairs up to a length with all outcomes of the real retis_swap_zero (junction identity, membership, statuses); every colour pair of an exactly reversible deterministic toy dynamics for the double-swap law; every cell of the QuanTIS acceptance draw against min(1,exp(b0 dV0 - b1 dV1)) from potential tables; lambda_-1 early rejection with a propagate counter.",
+    "Trusted: toy engines (lattice walk, coloured ballistic map F=RoS) behind the real EngineBase.add_to_path. Known finding: double swap at L == maxlength.",
+    "stateless exhaustive exploration with exact probabilities", "DESIGN.md 4/C11")
+chk("C01", "model_checking",
+    "Exact probabilistic model checking: (a) kernels of every move obtained by summing the exact probabilities of all executions of the real code on the lattice; global balance and closedness as equalities of rationals on each move's own truncated space; (b) [when built] the sampler's joint Markov chain from every outcome of the real scheduler step.",
+    "Trusted: lattice model; truncated spaces as the code defines them; outcome-independent completion schedules only.",
+    "exhaustive execution enumeration with exact probabilities (probabilistic model checking)", "DESIGN.md 4/C01")
